@@ -268,13 +268,19 @@ def finish(report, program, explanation, not_decided, trusted=None,
            exhaustive=False, extra=None):
     """Check floors, split findings into known / new, write evidence, print the
     verdict lines and return the exit code."""
+    floor_msgs = []
     for rule, n in sorted(report.floors.items()):
         got = report.counts.get(rule, 0)
         if got < n:
-            raise AnalysisError(
+            floor_msgs.append(
                 "rule %s evaluated %d instance(s), floor is %d - the rule no "
                 "longer finds the constructs it was written for" %
                 (rule, got, n))
+    if floor_msgs and not report.findings:
+        raise AnalysisError("; ".join(floor_msgs))
+    for m in floor_msgs:
+        report.note("floor not met (violations are reported regardless): " +
+                    m)
 
     known = load_known()
     known_keys = {}
